@@ -84,6 +84,7 @@ TCmd == /\ l <= N /\ TraceLog[l].e = "cmd"
 TraceNext == TReset \/ TCmd
 TraceSpec == TraceInit /\ [][TraceNext]_ivars
 
+\* acceptance: no invariant fails and the progress register (Track, printed by the POSTCONDITION Report) reaches N + 1
 NotAccepted == l <= N
 ReplayOK == "ReplayOK" \notin bad
 OpsFit == "OpsFit" \notin bad
